@@ -934,6 +934,30 @@ def gen_DatConsts():
     meta["dar_version_mapping"] = {f"{a}.{b}": c for a, b, _, c, _ in vm}
     out.append("")
 
+    # ---- what create_from_yaml_config refuses: tests of the `if <test>: raise ...` statements that follow the look-ups, with the locals
+    # renamed to the keyword of the credential constructor call they are passed to («uuid», «dck_pub», «rot_pub», «version») and the
+    # class variable that is called to «class»
+    base = _cls(tree, "DebugCredentialCertificate")
+    cfn = _fun(base, "create_from_yaml_config")
+    refusals = []
+    if cfn is not None:
+        role = {}
+        for n in ast.walk(cfn):
+            if isinstance(n, ast.Call) and isinstance(n.func, ast.Name) and {"rot_meta", "dck_pub", "rot_pub"} <= {k.arg for k in n.keywords}:
+                role[n.func.id] = "«class»"
+                for kw in n.keywords:
+                    if isinstance(kw.value, ast.Name):
+                        role.setdefault(kw.value.id, "«%s»" % kw.arg)
+        for st in cfn.body:
+            if isinstance(st, ast.If) and st.body and isinstance(st.body[0], ast.Raise) and not st.orelse:
+                t = copy.deepcopy(st.test)
+                for x in ast.walk(t):
+                    if isinstance(x, ast.Name) and x.id in role:
+                        x.id = role[x.id]
+                refusals.append(ast.unparse(t))
+    out.append(f"def createRefusals : List String := {_strs(refusals)}  -- create_from_yaml_config: top-level `if <test>: raise`")
+    out.append("")
+
     # ---- EdgeLock enclave v2 credential = AHAB certificate (spsdk/image/ahab/ahab_certificate.py) wrapped by DebugCredentialEdgeLockEnclaveV2
     v2_section(tree, out, meta)
 
